@@ -58,17 +58,15 @@ func (r *Router) handleIncomingTraffic(w *mgr.WorkerCtx, f frame.Frame) error {
 	}
 
 	// Check integrity.
+	// Note: When returning an error, the frame is returned to the pool by the caller.
 	switch {
 	case src != f.SrcIP():
-		f.ReturnToPool()
 		return errors.New("invalid packet: src IPs do not match")
 
 	case dst != f.DstIP():
-		f.ReturnToPool()
 		return errors.New("invalid packet: dst IPs do not match")
 
 	case m.InternalPrefix.Contains(f.DstIP()):
-		f.ReturnToPool()
 		return errors.New("invalid packet: dst IP is internal range")
 	}
 	// Check policy.
@@ -81,11 +79,11 @@ func (r *Router) handleIncomingTraffic(w *mgr.WorkerCtx, f frame.Frame) error {
 	}, len(packetData))
 	if status != connStatusAllowed {
 		// Packet may not be received.
-		f.ReturnToPool()
 		if err := r.ErrorPing.SendAccessDenied(src, dst, protocol, dstPort); err != nil {
 			return fmt.Errorf("send access denied ping: %w", err)
 		}
 
+		f.ReturnToPool()
 		return nil
 	}
 
